@@ -306,7 +306,7 @@ def pol_collide(ctx):
     return act.astype(np.int16)
 
 
-def _assign(ctx, nearest):
+def _assign(ctx, nearest=False):
     M = _mask(ctx)
     V = M.shape[0]
     xy = np.asarray(ctx["state"].nodes.coordinates, np.float64)
@@ -328,8 +328,20 @@ def pol_complete(ctx):
 
 
 def pol_greedy(ctx):
-    """Nearest masked-in customer per vehicle (distinct), depot when nothing fits."""
-    return _assign(ctx, nearest=True)
+    """The slowest legal way to finish (adversarial fill order "always-depot"): vehicle 0 alone drives to the
+    nearest masked-in customer and returns to the depot after every single customer, the others wait at the
+    depot. Needs two steps per customer with demand, so it reaches the step limit 2*num_customers exactly when
+    every customer has demand (the completion/limit boundary) and finishes earlier otherwise."""
+    M = _mask(ctx)
+    V = M.shape[0]
+    xy = np.asarray(ctx["state"].nodes.coordinates, np.float64)
+    pos = np.asarray(ctx["state"].vehicles.positions).astype(np.int64)
+    act = np.zeros(V, np.int64)
+    if pos[0] == 0:
+        opts = [int(c) for c in np.flatnonzero(M[0, 1:]) + 1]
+        if opts:
+            act[0] = min(opts, key=lambda c: np.linalg.norm(xy[c] - xy[0]))
+    return act.astype(np.int16)
 
 
 def policies(P):
